@@ -6,6 +6,7 @@ from eyecite.models import (
     CitationBase,
     FullCaseCitation,
     FullCitation,
+    FullJournalCitation,
     IdCitation,
     ReferenceCitation,
     Resource,
@@ -115,7 +116,7 @@ def _has_invalid_pin_cite(
     given full_cite."""
     # if full cite has a known missing page, this pin cite can't be correct
     if (
-        type(full_cite) is FullCaseCitation
+        type(full_cite) in (FullCaseCitation, FullJournalCitation)
         and full_cite.groups.get("page") is None
     ):
         return True
